@@ -4,7 +4,7 @@ import callgraph as CG
 from terms import show, alts, walk, strip_casts
 
 READER = 'asefile::reader::AseReader::'
-READ_PRIMS = ['byte', 'word', 'short', 'dword', 'long', 'string', 'read_exact', 'skip_reserved', 'take_bytes', 'unzip']
+READ_PRIMS = ['byte', 'word', 'short', 'dword', 'long', 'string', 'read_exact', 'read_vec', 'skip_reserved', 'take_bytes', 'unzip']
 VALUE_READS = {READER + k for k in ('byte', 'word', 'short', 'dword', 'long', 'string')}
 
 
